@@ -28,4 +28,9 @@ theorem C06_gen_clientCallSites :
       ("MultiCallIterator.__getitem__", true, false), ("MultiCall._request", true, false)] := by
   decide
 
+/-- The reply text the client-side handling works on is decoded ONCE from the joined pieces (`JSONTarget.feed` buffers
+    the raw piece, `close()` joins and decodes): `JRV.Wire.clientClose`, on which `ClientWire.parseResponse` and the
+    `C06_wire_*` theorems rest.  (The fact is extracted by tools/extractors/wire.py; C17 has its own companion.) -/
+theorem C06_gen_replyDecodedOnce : Generated.clientDecodesAfterJoin = some true := by decide
+
 end JRV.Props
